@@ -6,6 +6,7 @@ happen between ticks (reduction argument, DESIGN.md 2.3).
 """
 import asyncio
 import errno
+import weakref
 import socket
 import types
 
@@ -45,6 +46,13 @@ class Peer:
         self.reset_seen = False
         self.closed = False
         self.on_data = None         # reactive origins: callback(peer) after new bytes were read
+
+    @property
+    def proxy_side(self):
+        """The proxy's endpoint of this connection (for setting wire capacities / arming faults); None once it is gone."""
+        r = getattr(self, '_proxy_side', None)
+        p = r() if r is not None else self.sock.peer
+        return p if isinstance(p, simnet.SimSocket) else None
 
     # -- writing ----------------------------------------------------------------------------
     def write(self, data):
@@ -175,7 +183,11 @@ class Sim:
 
         def create_connection(addr, timeout=None, source_address=None, **kw):
             s = simnet.SimSocket(sim.world, 'u?')
-            sim._do_connect(s, addr, 'create_connection', source_address)
+            try:
+                sim._do_connect(s, addr, 'create_connection', source_address)
+            except BaseException:
+                s.close()               # as socket.create_connection does
+                raise
             return s
         shim.socket = mk_socket
         shim.create_connection = create_connection
@@ -205,7 +217,8 @@ class Sim:
         cap = spec.get('cap') if isinstance(spec, dict) else None
         b = simnet.SimSocket(self.world, 'U%d' % idx)
         sock.name = 'u%d' % idx
-        sock.peer, b.peer = b, sock
+        sock.peer = b
+        b.link_weakly(sock)
         sock.cap = cap if cap is not None else self.world.cap
         b.cap = sock.cap
         sock.traced = True
@@ -249,7 +262,7 @@ class Sim:
         a.traced = True
         a.addr = addr
         peer = Peer(self, b, nm.upper(), addr=addr)
-        peer.proxy_side = a
+        peer._proxy_side = weakref.ref(a)
         self.clients.append(peer)
         self.q.put((a, addr))
         self.world.ev(ev='accept', s=nm, fd=a.fd)
